@@ -1,13 +1,14 @@
 /- `divide_by_zero` — selene-lib/src/lints/divide_by_zero.rs:46-67 -/
 import Selene.Lints.TraverseA
+import Selene.Lints.Value
 namespace Selene.Lints.DivideByZero
 open Selene.Lua Selene.Lints
 
 def message : String := "dividing by zero is not allowed, use math.huge instead"
 
-/-- `value_is_zero` (divide_by_zero.rs:46-52): a number token spelled exactly `0` -/
+/-- `value_is_zero` (divide_by_zero.rs:46-52): a number token for which `ast_util::number_is_zero` holds -/
 def valueIsZero : Expr → Bool
-  | .num t => t.text == "0"
+  | .num t => numberIsZero t.text
   | _ => false
 
 /-- `visit_expression` (divide_by_zero.rs:55-66) -/
